@@ -5,7 +5,8 @@ import RQ.Model.FS
 `pieces` splits a byte string at every `/`; `FM bs` (the `compOfPiece`-images of the pieces) is the fuel-free
 body component list: `bodyComps fuel bs = FM bs` for enough fuel.  `eatComp`/`dropBody` drop components of
 `FM`, `trimLeft` and `trimRight 0` preserve `FM`; `Plain y` says `components y = FM y`.
-Main result: `components_stripPath`.
+`dropCur` is the effect of `skip_cur_dir` on the component list.
+Main results: `components_stripPath`, `cur_not_mem_stripPath`.
 -/
 namespace RQ
 
@@ -393,60 +394,124 @@ theorem components_body (n f2 : Nat) (x : Bytes) :
   obtain ⟨ht1, ht2⟩ := trimRight0_spec f2 (trimLeft ((dropBody n x).length + 1) (dropBody n x))
   rw [components_plain _ (TR_plain ht2 hy2), ht1, hy1, FM_dropBody]
 
-theorem stripPath_zero (raw : Bytes) : components (stripPath 0 raw) = components raw := by
+/-! ### `skip_cur_dir`: a leading `.` component is dropped -/
+/-- drop a leading `.` component (`skip_cur_dir`) -/
+def dropCur : List Comp → List Comp
+  | .cur :: cs => cs
+  | cs => cs
+
+@[simp] theorem dropCur_nil : dropCur [] = [] := rfl
+@[simp] theorem dropCur_cur (cs : List Comp) : dropCur (.cur :: cs) = cs := rfl
+theorem dropCur_cons_ne (c : Comp) (cs : List Comp) (h : c ≠ .cur) : dropCur (c :: cs) = c :: cs := by
+  cases c <;> first | rfl | exact absurd rfl h
+
+theorem dropCur_of_not_mem {l : List Comp} (h : Comp.cur ∉ l) : dropCur l = l := by
+  cases l with
+  | nil => rfl
+  | cons c cs => exact dropCur_cons_ne c cs (fun e => h (by simp [e]))
+
+/-- if `.` can only be the first element, it is gone after `dropCur` -/
+theorem cur_not_mem_dropCur {l : List Comp} (h : Comp.cur ∉ l.tail) : Comp.cur ∉ dropCur l := by
+  cases l with
+  | nil => simp
+  | cons c cs =>
+    by_cases hc : c = .cur
+    · subst hc; simpa using h
+    · rw [dropCur_cons_ne c cs hc]
+      simp only [List.tail_cons] at h
+      simp [h, Ne.symm hc]
+
+theorem cur_not_mem_FM (bs : Bytes) : Comp.cur ∉ FM bs := by
+  unfold FM
+  intro h
+  rw [List.mem_filterMap] at h
+  obtain ⟨p, _, hc⟩ := h
+  exact compOfPiece_ne_cur p hc
+
+theorem includeCurDir_sep (bs : Bytes) : includeCurDir (SEP :: bs) = false := by
+  cases bs <;> simp [includeCurDir, SEP, DOT]
+
+/-- the three shapes of a component list -/
+theorem components_cases (raw : Bytes) :
+    (∃ bs, components raw = .root :: FM bs) ∨ (∃ bs, components raw = .cur :: FM bs) ∨
+    (∃ bs, components raw = FM bs) := by
   cases raw with
-  | nil => simp [stripPath, dropComps]
+  | nil => exact Or.inr (Or.inr ⟨[], by simp [components]⟩)
+  | cons b bs =>
+    by_cases hb : b = SEP
+    · subst hb; exact Or.inl ⟨bs, components_sep bs⟩
+    · cases hi : includeCurDir (b :: bs) with
+      | true => exact Or.inr (Or.inl ⟨bs, components_cur b bs hi⟩)
+      | false => exact Or.inr (Or.inr ⟨b :: bs, components_plain _ ⟨by simpa using hb, hi⟩⟩)
+
+/-- `.` can only be the first component -/
+theorem cur_not_mem_tail (raw : Bytes) : Comp.cur ∉ (components raw).tail := by
+  rcases components_cases raw with ⟨bs, e⟩ | ⟨bs, e⟩ | ⟨bs, e⟩
+  · rw [e]; exact cur_not_mem_FM bs
+  · rw [e]; exact cur_not_mem_FM bs
+  · rw [e]; exact fun h => cur_not_mem_FM bs (List.mem_of_mem_tail h)
+
+theorem cur_not_mem_drop_succ (n : Nat) (raw : Bytes) : Comp.cur ∉ (components raw).drop (n+1) := by
+  intro h
+  rw [← List.drop_tail] at h
+  exact cur_not_mem_tail raw (List.mem_of_mem_drop h)
+
+theorem stripPath_zero (raw : Bytes) : components (stripPath 0 raw) = dropCur (components raw) := by
+  cases raw with
+  | nil => simp [stripPath, dropComps, includeCurDir, components]
   | cons b bs =>
     by_cases hb : b = SEP
     · subst hb
-      simp only [stripPath, dropComps, if_true, Bool.false_eq_true, if_false]
+      simp only [stripPath, dropComps, includeCurDir_sep, Bool.not_false, Bool.and_false,
+        Bool.false_eq_true, if_false, if_true]
       rw [trimRight1_cons, components_sep, components_sep, (trimRight0_spec _ bs).1]
+      rfl
     · cases hi : includeCurDir (b :: bs) with
       | true =>
-        simp only [stripPath, dropComps, hb, hi, if_true, Bool.false_eq_true, if_false]
-        rw [trimRight1_cons, components_cur b bs hi]
-        obtain ⟨h1, h2⟩ := trimRight0_spec ((b :: bs).length + 1) bs
-        have hi' : includeCurDir (b :: trimRight 0 ((b :: bs).length + 1) bs) = true := by
-          cases bs with
-          | nil => simpa using hi
-          | cons c cs =>
-            simp [includeCurDir] at hi
-            obtain ⟨hb', hc⟩ := hi; subst hb'; subst hc
-            rcases h2 with e | ⟨ys, e⟩ | ⟨e, _⟩
-            · rw [e]; simp [includeCurDir]
-            · generalize trimRight 0 _ _ = t at e
-              cases t with
-              | nil => simp [includeCurDir]
-              | cons a as =>
-                simp at e; obtain ⟨e1, _⟩ := e; subst e1; simp [includeCurDir]
-            · rw [e]; simp [includeCurDir]
-        rw [components_cur _ _ hi', h1]
+        simp only [stripPath, dropComps, hi, Bool.not_false, Bool.and_true, if_true, List.tail_cons]
+        have h := components_body 0 ((trimLeft (bs.length + 1) bs).length + 1) bs
+        simp only [dropBody] at h
+        rw [components_cur b bs hi, dropCur_cur]
+        simpa using h
       | false =>
-        simp only [stripPath, dropComps, hb, hi, Bool.false_eq_true, if_false]
+        simp only [stripPath, dropComps, hb, hi, Bool.not_false, Bool.and_false, Bool.false_eq_true, if_false]
         have hp : Plain (b :: bs) := ⟨by simpa using hb, hi⟩
         obtain ⟨h1, h2⟩ := trimRight0_spec ((b :: bs).length + 1) (b :: bs)
-        rw [components_plain _ (TR_plain h2 hp), h1, components_plain _ hp]
+        rw [components_plain _ (TR_plain h2 hp), h1, components_plain _ hp,
+          dropCur_of_not_mem (cur_not_mem_FM _)]
 
+/-- stripping removes exactly `n` leading components, and a leading `.` that is left -/
 theorem components_stripPath (n : Nat) (raw : Bytes) :
-    components (stripPath n raw) = (components raw).drop n := by
+    components (stripPath n raw) = dropCur ((components raw).drop n) := by
   cases n with
   | zero => simpa using stripPath_zero raw
   | succ n =>
+    rw [dropCur_of_not_mem (cur_not_mem_drop_succ n raw)]
     cases raw with
     | nil => simp [stripPath, dropComps, trimLeft, components]
     | cons b bs =>
       by_cases hb : b = SEP
       · subst hb
-        simp only [stripPath, dropComps, if_true]
+        simp only [stripPath, dropComps, if_true, Bool.not_true, Bool.false_and, Bool.false_eq_true, if_false]
         rw [components_body, components_sep]; simp
       · cases hi : includeCurDir (b :: bs) with
         | true =>
-          simp only [stripPath, dropComps, hb, hi, if_true, if_false]
+          simp only [stripPath, dropComps, hb, hi, if_true, if_false, Bool.not_true, Bool.false_and,
+            Bool.false_eq_true]
           rw [components_body, components_cur b bs hi]; simp
         | false =>
-          simp only [stripPath, dropComps, hb, hi, if_true, if_false, Bool.false_eq_true]
+          simp only [stripPath, dropComps, hb, hi, if_true, if_false, Bool.false_eq_true, Bool.not_true,
+            Bool.false_and]
           have hp : Plain (b :: bs) := ⟨by simpa using hb, hi⟩
           rw [components_body, components_plain _ hp]
+
+/-- after stripping, no `.` component is left: `./x` and `x` are the same name -/
+theorem cur_not_mem_stripPath (n : Nat) (raw : Bytes) : Comp.cur ∉ components (stripPath n raw) := by
+  rw [components_stripPath]
+  apply cur_not_mem_dropCur
+  intro h
+  rw [List.tail_drop] at h
+  exact cur_not_mem_drop_succ n raw h
 
 
 /-! ### names of normal components -/
